@@ -70,8 +70,7 @@ def envOf (s : Sexp) : Option (State Float) :=
         let ty ← Wire.tyOf ty
         let et ← (match ty with | .int => some ElemTy.int | .float => some ElemTy.float | _ => none)
         let cs ← cells.mapM fun c => (match c with | .atom "u" => some none | v => (valOf v).map some)
-        let stored := ((List.range cs.length).zip cs).filterMap fun (i, c) => c.map fun v => (i, v)
-        let blk : Block Float := ⟨et, cs.length, stored, .output, true⟩
+        let blk : Block Float := ⟨et, cs, .output, true⟩
         pure { σ with heap := σ.heap ++ [blk], vars := σ.vars ++ [⟨n, .ptr ty, some (.ptr σ.heap.length 0)⟩] }
       | _ => none) ⟨[], [], []⟩
   | _ => none
@@ -106,7 +105,7 @@ def stateSame (a b : State Float) : Bool :=
   && (a.vars.zip b.vars).all (fun (x, y) => x.name == y.name && x.ty == y.ty && optSame valSame x.val y.val)
   && a.heap.length == b.heap.length
   && (a.heap.zip b.heap).all (fun (x, y) => x.len == y.len && x.live == y.live && x.ty == y.ty
-      && (List.range x.len).all fun i => optSame valSame (getCell i x.cells) (getCell i y.cells))
+      && (x.cells.zip y.cells).all fun (c, d) => optSame valSame c d)
 
 open TV.IR in
 def outcomeSexp (r : Except Err (Out Float)) : Sexp :=
